@@ -109,7 +109,13 @@ def generate(rng, config):
     if kind == "kxor" and k >= 6:
         m = min(m, 6)
     strategy, budget = adversary_from(rng, p_none=0.4)
+    form = rng.choice(["list", "list", "shuffled", "tuple", "set",
+                       "frozenset"])
+    if form == "shuffled":
+        for a in planted:
+            rng.shuffle(a)
     case = {"kind": kind, "k": k, "n": n, "m": m, "planted": planted,
+            "planted_form": form,
             "klass": rng.choice(["CNF", "CNF", "OPB"]),
             "seed_arg": rng.choice([None, None, 0, 1, 42, "str"]),
             "prng": {"seed": rng.randrange(2 ** 32), "strategy": strategy,
@@ -154,7 +160,10 @@ def execute(case, ctx):
         else:
             kw = {"formula_class": klass}
             if planted:
-                kw["planted_assignments"] = [list(a) for a in planted]
+                conv = {"tuple": tuple, "set": set,
+                        "frozenset": frozenset}.get(
+                            case.get("planted_form"), list)
+                kw["planted_assignments"] = [conv(a) for a in planted]
             if case["seed_arg"] is not None:
                 kw["seed"] = case["seed_arg"]
             res = call(fn, k, n, m, **kw)
